@@ -257,10 +257,16 @@ VARIANTS = [
     V("intervals with gaps binned as if contiguous", ("C07",), "R-CLOSEDSIDE", "core.py", '            rights = expect.right.to_numpy()\n            if len(rights) > 1 and not np.array_equal(rights[:-1], expect.left.to_numpy()[1:]):', '            rights = bins[1:]\n            if False:', must_mention="gap"),
     V("xarray option set as a plain statement in the shortcut", ("C14",), "R-OPTIONS", "xarray.py", '        result = getattr(ds_broad, func)(dim=dim_tuple, **kwargs)', '        xr.set_options(keep_attrs=keep_attrs)\n        result = getattr(ds_broad, func)(dim=dim_tuple, **kwargs)', must_mention="call history"),
     V("twin: xarray option set for the duration of the reduction", ("C14",), "", "xarray.py", '        result = getattr(ds_broad, func)(dim=dim_tuple, **kwargs)', '        with xr.set_options(keep_attrs=keep_attrs):\n            result = getattr(ds_broad, func)(dim=dim_tuple, **kwargs)', expect="silent"),
-    V("numba max / min handed to the raw numpy_groupies kernel", ("C01",), "R-NUMBAMINMAX", "aggregate_npg.py", 'max = partial(_minmax, func="max")\nmin = partial(_minmax, func="min")\n', '', must_mention="skips NaN"),
+    V("numba max / min handed to the raw numpy_groupies kernel", ("C01", "C20"), "R-NUMBAMINMAX", "aggregate_npg.py", 'max = partial(_minmax, func="max")\nmin = partial(_minmax, func="min")\n', '', must_mention="skips NaN"),
     V("tree node casts its concatenated children to the narrowest child dtype", ("C03", "C02"), "R-COMBINECAST", "core.py", '    return _concatenate2(mapped, axes=axis)', '    concatenated = _concatenate2(mapped, axes=axis)\n    narrowest = min((np.asarray(block).dtype for block in mapped), key=lambda dt: dt.itemsize)\n    return concatenated.astype(narrowest, copy=False)', must_mention="split_every"),
     V("reindex refusals taken for lazy values only, not for lazy labels", ("C19",), "R-NORMFORM", "core.py", '    if reindex_.blockwise is True and not all_eager:', '    if reindex_.blockwise is True and is_dask_array:', must_mention="any_by_dask"),
     V("zero-length blocks no longer dropped for the blockwise plan", ("C19",), "R-ZEROBLOCK", "core.py", '        if method == "blockwise" and any(0 in array.chunks[ax] for ax in axis_):', '        if False:', must_mention="zero-length"),
+    V("numba min/max: NaN membership decided from the group total (inf + -inf is NaN)", ("C01", "C20"), "R-NUMBAMINMAX", "aggregate_npg.py",
+      'hasnan = aggregate(group_idx, np.isnan(array), axis=axis, func="any", size=size, fill_value=False)',
+      'hasnan = np.isnan(aggregate(group_idx, array, axis=axis, func="sum", size=size, fill_value=0))', must_mention="arithmetic aggregate"),
+    V("twin: NaN membership through a named mask and func='max' of the mask", ("C01", "C20"), "", "aggregate_npg.py",
+      'hasnan = aggregate(group_idx, np.isnan(array), axis=axis, func="any", size=size, fill_value=False)',
+      'isn = np.isnan(array)\n        hasnan = aggregate(group_idx, isn, axis=axis, func="max", size=size, fill_value=False).astype(bool)', expect="silent"),
     V("dtype promotion memoised with an untyped key", ("C14",), "R-MEMO", "xrdtypes.py", '        dtype = np.result_type(dtype, fill_value)\n    return dtype\n',
       '        dtype = _promote_for_fill_value(dtype, fill_value)\n    return dtype\n\n\n@functools.lru_cache\ndef _promote_for_fill_value(dtype: np.dtype, fill_value) -> np.dtype:\n    return np.result_type(dtype, fill_value)\n', must_mention="typed"),
     V("twin: dtype promotion memoised with typed=True", ("C14",), "", "xrdtypes.py", '        dtype = np.result_type(dtype, fill_value)\n    return dtype\n',
